@@ -244,3 +244,5 @@ class C06(Check):
 
 
 CHECK = C06()
+# scope added in later rounds, kept in the evidence text
+CHECK.rule += " CLI slice: every sixth case also with a stale cache whose mtime equals the rewritten FASTA's."
